@@ -102,6 +102,7 @@ class int_eval_macro(Macro):
     def eval(self, goal, prevs):
         assert len(prevs) == 0, "int_eval_macro: no conditions expected"
         assert goal.is_equals(), "int_eval_macro: goal must be an equality"
+        assert goal.lhs.get_type() == IntType, "int_eval_macro: goal must be an equality on integers"
         assert int_eval(goal.lhs) == int_eval(goal.rhs), "int_eval_macro: two sides are not equal"
 
         return Thm(goal)
